@@ -1,16 +1,17 @@
-//! Coverage-guided entry points (libFuzzer, `cargo +nightly fuzz`): the fuzzer's bytes are
-//! used as the random stream of the engine's *own* proptest strategy
-//! (`RngAlgorithm::PassThrough`), so a fuzz input decodes to exactly the case type, the same
-//! interpreter and the same oracle as the property-based tiers; mutation of the bytes is
-//! mutation of the generator's choices. Only in-process engines are exposed (no child
-//! processes, no runtime threads).
+//! Coverage-guided entry points (libFuzzer, `cargo +nightly fuzz`). Every target decodes the
+//! fuzzer's bytes with `arbitrary::Unstructured` into the *same* case type the property-based
+//! tiers generate, and hands it to the same interpreter and oracle; only in-process engines
+//! are exposed (no child processes, no runtime threads). A first attempt to feed the bytes
+//! to the proptest strategies as their random stream (`RngAlgorithm::PassThrough`) was
+//! dropped: that stream answers zeros when it runs out and splits in halves at every fork,
+//! and rand's unbiased range sampling never accepts an all-zero stream (endless loop).
 
-use crate::engines::{c05, c06, c08, c09, c25, c28};
-use proptest::strategy::{Strategy, ValueTree};
-use proptest::test_runner::{Config, RngAlgorithm, TestRng, TestRunner};
-use serde::Serialize;
+use crate::engines::qreal::Op as QOp;
+use crate::engines::{c05, c06, c09, c25, c28};
+use arbitrary::Unstructured;
 use vkit::Outcome;
 
+/// (target name, property)
 pub const TARGETS: &[(&str, &str)] = &[
     ("c05s", "C05"),
     ("c05o", "C05"),
@@ -18,53 +19,229 @@ pub const TARGETS: &[(&str, &str)] = &[
     ("c06f", "C06"),
     ("c06f2", "C06"),
     ("c06i", "C06"),
-    ("c08", "C08"),
     ("c09", "C09"),
     ("c25", "C25"),
     ("c28", "C28"),
 ];
 
-fn decode<S: Strategy>(s: &S, data: &[u8]) -> Option<S::Value> {
-    if data.is_empty() {
-        return None;
+type R<T> = arbitrary::Result<T>;
+
+fn prio(u: &mut Unstructured) -> R<i64> {
+    Ok(match u.int_in_range(0u8..=15)? {
+        0..=5 => i64::from(u.int_in_range(-2i8..=2)?),
+        6 => i64::MIN,
+        7 => i64::MIN + 1,
+        8 => i64::MAX - 1,
+        9 => i64::MAX,
+        10 => u.arbitrary::<i64>()?,
+        11 => 1i64 << u.int_in_range(0u32..=62)?,
+        12 => -(1i64 << u.int_in_range(0u32..=62)?),
+        13 => i64::from(u.int_in_range(-3i8..=2)?) + (1i64 << 32),
+        14 => i64::from(u.int_in_range(-3i8..=2)?) - (1i64 << 32),
+        _ => 0,
+    })
+}
+
+/// weights as in `qreal::op(w_lpush, w_lpop, w_spush, w_spop)`
+fn qop(u: &mut Unstructured, w: [u32; 4]) -> R<QOp> {
+    let total = w[0] + (w[0] / 6).max(1) + w[1] + w[2] + w[3];
+    let mut x = u.int_in_range(0..=total - 1)?;
+    if x < w[0] {
+        return Ok(QOp::LPush { q: u.arbitrary()?, prio: prio(u)? });
     }
-    let rng = TestRng::from_seed(RngAlgorithm::PassThrough, data);
-    let mut runner = TestRunner::new_with_rng(Config { failure_persistence: None, ..Config::default() }, rng);
-    s.new_tree(&mut runner).ok().map(|t| t.current())
+    x -= w[0];
+    if x < (w[0] / 6).max(1) {
+        return Ok(QOp::LPushDefault { q: u.arbitrary()? });
+    }
+    x -= (w[0] / 6).max(1);
+    if x < w[1] {
+        return Ok(QOp::LPop { q: u.arbitrary()? });
+    }
+    x -= w[1];
+    if x < w[2] {
+        return Ok(QOp::SPush { prio: prio(u)? });
+    }
+    Ok(QOp::SPop)
 }
 
-fn go<S: Strategy>(s: S, data: &[u8], exec: impl Fn(&S::Value) -> Outcome) -> Option<(Outcome, serde_json::Value)>
-where
-    S::Value: Serialize,
-{
-    let case = decode(&s, data)?;
-    let o = exec(&case);
-    Some((o, serde_json::to_value(&case).unwrap_or(serde_json::Value::Null)))
+fn qops(u: &mut Unstructured, w: [u32; 4], min: usize, max: usize) -> R<Vec<QOp>> {
+    let mut v = vec![];
+    while v.len() < max && (v.len() < min || !u.is_empty()) {
+        v.push(qop(u, w)?);
+    }
+    Ok(v)
 }
 
-/// Execute one fuzz input. Returns `(sub-run name, outcome, case as json)`.
+fn cap(u: &mut Unstructured) -> R<u16> {
+    Ok(match u.int_in_range(0u8..=5)? {
+        0..=2 => u.int_in_range(1u16..=8)?,
+        3 | 4 => u.int_in_range(1u16..=64)?,
+        _ => 256,
+    })
+}
+
+fn dec_c05_hist(u: &mut Unstructured) -> R<c05::Hist> {
+    Ok(c05::Hist { nlocals: u.int_in_range(1u8..=4)?, cap: cap(u)?, ops: qops(u, [6, 5, 3, 2], 0, 120)? })
+}
+
+fn dec_c05_scen(u: &mut Unstructured) -> R<c05::Scen> {
+    let cap = if u.arbitrary::<bool>()? { u.int_in_range(1u16..=8)? } else { u.int_in_range(1u16..=40)? };
+    let n = u.int_in_range(1usize..=119)?;
+    let mut prios = vec![];
+    for _ in 0..n {
+        prios.push(prio(u)?);
+    }
+    let m = u.int_in_range(0usize..=39)?;
+    let mut b_ops = vec![];
+    for _ in 0..m {
+        b_ops.push(if u.int_in_range(0u8..=4)? < 3 { None } else { Some(prio(u)?) });
+    }
+    Ok(c05::Scen { cap, prios, b_ops })
+}
+
+fn dec_c06(u: &mut Unstructured, which: u8) -> R<c06::Hist> {
+    Ok(match which {
+        // F / F2: pop-heavy, one local mostly
+        0 | 1 => c06::Hist {
+            ordered: u.arbitrary()?,
+            nlocals: [1u8, 1, 1, 1, 2, 3][u.int_in_range(0usize..=5)?],
+            cap: match u.int_in_range(0u8..=4)? {
+                0 | 1 => u.int_in_range(3u16..=8)?,
+                2 | 3 => u.int_in_range(8u16..=64)?,
+                _ => 256,
+            },
+            ops: qops(u, if which == 0 { [5, 9, 2, 0] } else { [6, 9, 2, 1] }, 70, 260)?,
+        },
+        _ => c06::Hist { ordered: u.arbitrary()?, nlocals: u.int_in_range(2u8..=4)?, cap: if u.int_in_range(0u8..=3)? < 3 { u.int_in_range(1u16..=8)? } else { u.int_in_range(8u16..=32)? }, ops: qops(u, [7, 6, 1, 1], 1, 120)? },
+    })
+}
+
+fn dec_c09(u: &mut Unstructured) -> R<c09::Case> {
+    let n = u.int_in_range(2usize..=5)?;
+    let mut cos = vec![];
+    for _ in 0..n {
+        let k = u.int_in_range(0usize..=6)?;
+        let mut ys = vec![];
+        for _ in 0..k {
+            ys.push(match u.int_in_range(0u8..=13)? {
+                0..=3 => c09::Y::Plain,
+                4..=6 => c09::Y::Until,
+                7 => c09::Y::Cancel,
+                8 | 9 => c09::Y::SysPlain,
+                10..=12 => c09::Y::SysUntil,
+                _ => c09::Y::SysCancel,
+            });
+        }
+        cos.push(ys);
+    }
+    let m = u.int_in_range(0usize..=39)?;
+    let mut order = vec![];
+    for _ in 0..m {
+        order.push(u.arbitrary::<u16>()?);
+    }
+    Ok(c09::Case { cos, order })
+}
+
+fn dec_c25(u: &mut Unstructured) -> R<c25::Case> {
+    let mut ops = vec![];
+    while ops.len() < 60 && !u.is_empty() {
+        let (c, k) = (u.int_in_range(0u8..=2)?, u.int_in_range(0u8..=3)?);
+        ops.push(match u.int_in_range(0u8..=19)? {
+            0..=5 => c25::Op::Put { c, k },
+            6..=9 => c25::Op::Get { c, k },
+            10 | 11 => c25::Op::GetMutWrite { c, k },
+            12..=14 => c25::Op::Remove { c, k },
+            15 => c25::Op::DropCo { c },
+            16..=18 => c25::Op::PutShape { c, k: k % 2, shape: u.int_in_range(0u8..=1)? },
+            _ => c25::Op::RemoveShape { c, k: k % 2, shape: u.int_in_range(0u8..=1)? },
+        });
+    }
+    Ok(c25::Case { ops })
+}
+
+fn dec_c28(u: &mut Unstructured) -> R<c28::Case> {
+    fn big(u: &mut Unstructured) -> R<u64> {
+        Ok(match u.int_in_range(0u8..=9)? {
+            0..=2 => u.arbitrary()?,
+            3 => u.int_in_range(0u64..=999)?,
+            4 => u64::MAX - u.int_in_range(0u64..=2)?,
+            5 => u64::MAX / 1_000_000_000 + u.int_in_range(0u64..=2)? - 1,
+            6 => 1u64 << u.int_in_range(0u32..=63)?,
+            7 => (1u64 << u.int_in_range(1u32..=63)?) - 1,
+            8 => u64::MAX / 1_000_000_000 - u.int_in_range(0u64..=40_000_000_000)?.min(u64::MAX / 1_000_000_000),
+            _ => i64::MAX as u64,
+        })
+    }
+    let nanos = |u: &mut Unstructured| -> R<u32> { Ok([0u32, 1, 999_999_999, u.int_in_range(0u32..=999_999_999)?][u.int_in_range(0usize..=3)?]) };
+    Ok(match u.int_in_range(0u8..=10)? {
+        0..=3 => c28::Case::Timeout { secs: big(u)?, nanos: nanos(u)? },
+        4..=7 => c28::Case::Slices {
+            slice_secs: if u.int_in_range(0u8..=3)? < 3 { u.int_in_range(0u64..=4)? } else { big(u)? },
+            slice_nanos: nanos(u)?,
+            k: match u.int_in_range(0u8..=6)? {
+                0..=2 => u.int_in_range(0u32..=19)?,
+                3 | 4 => u.int_in_range(0u32..=100_000)?,
+                5 => 100_000,
+                _ => 1,
+            },
+            rem_frac: u.arbitrary()?,
+        },
+        _ => c28::Case::Limit {
+            sec: match u.int_in_range(0u8..=5)? {
+                0 | 1 => u.int_in_range(0i64..=99)?,
+                2 => i64::MAX,
+                3 => u.int_in_range(0i64..=i64::MAX)?,
+                4 => (u64::MAX / 1_000_000_000) as i64 + i64::from(u.int_in_range(0u8..=1)?),
+                _ => 0,
+            },
+            usec: match u.int_in_range(0u8..=5)? {
+                0 | 1 => u.int_in_range(0i64..=999_999)?,
+                2 => 999_999,
+                3 => u.int_in_range(0i64..=i64::MAX)?,
+                4 => i64::MAX,
+                _ => 0,
+            },
+        },
+    })
+}
+
+fn ser<T: serde::Serialize>(sub: &'static str, case: &T, o: Outcome) -> Option<(&'static str, Outcome, serde_json::Value)> {
+    Some((sub, o, serde_json::to_value(case).unwrap_or(serde_json::Value::Null)))
+}
+
+/// Execute one fuzz input. Returns `(sub-run name, outcome, case as json)`; `None` when the
+/// bytes do not decode to a case.
 pub fn run(target: &str, data: &[u8]) -> Option<(&'static str, Outcome, serde_json::Value)> {
-    let (sub, r) = match target {
-        "c05s" => ("S", go(c05::hist_strategy(120), data, c05::exec_s)),
-        "c05o" => ("O", go(c05::scen_strategy(), data, c05::exec_o)),
-        "c05t" => ("T", go(c05::scen_strategy(), data, c05::exec_t)),
-        "c06f" => ("F", go(c06::hist_f_strategy(260), data, c06::exec_f)),
-        "c06f2" => ("F2", go(c06::hist_f2_strategy(260), data, c06::exec_f2)),
-        "c06i" => ("I", go(c06::hist_i_strategy(120), data, c06::exec_i)),
-        "c08" => ("values", go(c08::strategy(), data, c08::exec)),
-        "c09" => ("requests", go(c09::strategy(), data, c09::exec)),
-        "c25" => ("local", go(c25::strategy(), data, c25::exec)),
-        "c28" => ("helpers", go(c28::strategy(), data, c28::exec)),
-        _ => return None,
-    };
-    r.map(|(o, c)| (sub, o, c))
+    let mut u = Unstructured::new(data);
+    match target {
+        "c05s" => dec_c05_hist(&mut u).ok().and_then(|c| ser("S", &c, c05::exec_s(&c))),
+        "c05o" => dec_c05_scen(&mut u).ok().and_then(|c| ser("O", &c, c05::exec_o(&c))),
+        "c05t" => dec_c05_scen(&mut u).ok().and_then(|c| ser("T", &c, c05::exec_t(&c))),
+        "c06f" => dec_c06(&mut u, 0).ok().and_then(|c| ser("F", &c, c06::exec_f(&c))),
+        "c06f2" => dec_c06(&mut u, 1).ok().and_then(|c| ser("F2", &c, c06::exec_f2(&c))),
+        "c06i" => dec_c06(&mut u, 2).ok().and_then(|c| ser("I", &c, c06::exec_i(&c))),
+        "c09" => dec_c09(&mut u).ok().and_then(|c| ser("requests", &c, c09::exec(&c))),
+        "c25" => dec_c25(&mut u).ok().and_then(|c| ser("local", &c, c25::exec(&c))),
+        "c28" => dec_c28(&mut u).ok().and_then(|c| ser("helpers", &c, c28::exec(&c))),
+        _ => None,
+    }
 }
 
-/// Called by every fuzz target: runs the input, and on an unlisted violation writes the
+/// Called by every fuzz target: runs the input and, on an unlisted violation, writes the
 /// replay file, prints the VIOLATION line and aborts (so that libFuzzer keeps the input).
 pub fn fuzz_one(target: &str, data: &[u8]) {
     let property = TARGETS.iter().find(|t| t.0 == target).map_or("C00", |t| t.1);
-    let Some((sub, o, case)) = run(target, data) else { return };
+    // a panic of the code under test (overflow checks are on) is a finding of its own, as in
+    // the property-based runner
+    let r = std::panic::catch_unwind(|| run(target, data));
+    let (sub, o, case) = match r {
+        Ok(Some(x)) => x,
+        Ok(None) => return,
+        Err(e) => {
+            let m = e.downcast_ref::<&'static str>().map(|s| (*s).to_string()).or_else(|| e.downcast_ref::<String>().cloned()).unwrap_or_default();
+            ("fuzz", Outcome::fail(format!("{property}/harness-or-code-panic"), format!("panic while executing the decoded case: {m}")), serde_json::json!({"fuzz_input_hex": data.iter().map(|b| format!("{b:02x}")).collect::<String>(), "target": target}))
+        }
+    };
     let Some((sig, msg)) = o.fail else { return };
     if vkit::Known::load(property).is_known(&sig).is_some() {
         return;
